@@ -61,8 +61,11 @@ func (s *compositeSchedule) Start(startAt time.Time) {
 	s.scheds[0].Start(startAt)
 }
 func (s *compositeSchedule) Next() (tx time.Time, ok bool) {
+	verifYield(s, "rlock")
 	s.rwMu.RLock()
+	verifYield(s, "child")
 	tx, ok = s.scheds[0].Next()
+	verifYield(s, "got")
 	if ok {
 		s.rwMu.RUnlock()
 		return // Got token, all is good.
@@ -74,12 +77,15 @@ func (s *compositeSchedule) Next() (tx time.Time, ok bool) {
 	}
 	// Current schedule is finished, but some are left.
 	// Let's start next, with got finish time from previous!
+	verifYield(s, "lock")
 	s.rwMu.Lock()
 	schedsLeftNow := len(s.scheds)
 	somebodyStartedNextBeforeUs := schedsLeftNow < schedsLeft
 	if somebodyStartedNextBeforeUs {
 		// Let's just take token.
+		verifYield(s, "wchild1")
 		tx, ok = s.scheds[0].Next()
+		verifYield(s, "wgot1")
 		s.rwMu.Unlock()
 		if ok || schedsLeftNow == 1 {
 			return
@@ -89,7 +95,9 @@ func (s *compositeSchedule) Next() (tx time.Time, ok bool) {
 		return s.Next()
 	}
 	s.startNext(tx)
+	verifYield(s, "wchild2")
 	tx, ok = s.scheds[0].Next()
+	verifYield(s, "wgot2")
 	s.rwMu.Unlock()
 	if !ok && schedsLeftNow > 1 {
 		// What? Schedule without any tokens? Okay, just retry.
@@ -99,10 +107,13 @@ func (s *compositeSchedule) Next() (tx time.Time, ok bool) {
 }
 
 func (s *compositeSchedule) Left() int {
+	verifYield(s, "l_rlock")
 	s.rwMu.RLock()
 	schedsLeft := len(s.scheds)
 	leftAfter := int(s.leftAfter[0])
+	verifYield(s, "l_child")
 	left := s.scheds[0].Left()
+	verifYield(s, "l_got")
 	s.rwMu.RUnlock()
 	if schedsLeft == 1 {
 		return left
@@ -113,16 +124,20 @@ func (s *compositeSchedule) Left() int {
 		}
 		// leftAfter was unknown, at schedule create moment.
 		// But now, it can be finished. Let's shift, and try one more time.
+		verifYield(s, "l_lock")
 		s.rwMu.Lock()
 		shedsLeftNow := len(s.scheds)
 		if shedsLeftNow == schedsLeft {
+			verifYield(s, "l_wchild")
 			currentFinishTime, ok := s.scheds[0].Next()
+			verifYield(s, "l_wgot")
 			if ok {
 				s.rwMu.Unlock()
 				panic("current schedule is not finished")
 			}
 			s.startNext(currentFinishTime)
 		}
+		verifYield(s, "l_unlock")
 		s.rwMu.Unlock()
 		return s.Left()
 	}
